@@ -228,6 +228,16 @@ Fixpoint not_resubmitted (id : N) (h : list op) : bool :=
   | _ :: h' => not_resubmitted id h'
   end.
 
+(* ---------- Kubernetes work units ---------- *)
+
+(* pkg/workceptor/kubernetes.go: the two secret parameters of a Kubernetes work unit,
+   secret_kube_config and secret_kube_pod, are kept in KubeExtraData.KubeConfig / KubePod (memory
+   and status file); KubeUnit.Status (), from which every status / list reply is built, blanks
+   both and leaves the other fields alone. *)
+Record kube_rec := mkkube { k_config : bytes; k_pod : bytes; k_namespace : bytes; k_image : bytes }.
+
+Definition kube_view (r : kube_rec) : kube_rec := mkkube [] [] (k_namespace r) (k_image r).
+
 (* ---------- correspondence cases ---------- *)
 
 Fixpoint beq_params (a b : params) : bool :=
@@ -277,7 +287,9 @@ Fixpoint beq_disk (a : table) (b : list (N * params)) : bool :=
 Inductive secrets_case :=
 | CKey (k : bytes) (go_secret : bool)
      (* strings.HasPrefix(strings.ToLower(k), "secret_") evaluated by Go *)
-| CHist (profiles : list bytes) (h : list op) (observed : list resp) (files : list (N * params)).
+| CHist (profiles : list bytes) (h : list op) (observed : list resp) (files : list (N * params))
+| CKube (stored shown : kube_rec).
+     (* a Kubernetes unit: the record in its status file, and what a status / list reply shows *)
      (* a history on the real daemon: the projected reply to every operation, and the parameter
         maps found in the status files at the end *)
 
@@ -287,4 +299,8 @@ Definition secrets_check (c : secrets_case) : bool :=
   | CHist profiles h observed files =>
     let '(st, rs) := run profiles init h in
     beq_resps rs observed && beq_disk (disk st) files
+  | CKube stored shown =>
+    let v := kube_view stored in
+    beq_bytes (k_config v) (k_config shown) && beq_bytes (k_pod v) (k_pod shown)
+    && beq_bytes (k_namespace v) (k_namespace shown) && beq_bytes (k_image v) (k_image shown)
   end.
